@@ -19,6 +19,9 @@ EXPLANATION = LEVEL_TEXT
 TRUSTED = ["harness/extractors/effects.py (static effect extraction; validated against the audit trace each run)", "Python audit events 'open', 'os.system', 'os.remove' are complete for file access of the stage",
            "in-memory module state other than sympy_locs and the numpy RNG (e.g. sympy's caches) is not modelled; it is covered only by the differential runs"]
 ASSUMPTIONS = ["earlier runs completed (no stale per-rank temp files)", "the fitting stages are observed with the numpy RNG re-seeded at the start of the observed stage"]
+# tables whose committed version may stand in as a hand-written model when the translator cannot read the source;
+# value = the correspondence that then ties it to the code (common.prove / common.decide)
+FALLBACK = {'Effects': 'audit trace of every file operation of real generation runs vs the committed effect summary'}
 MODELLED = []
 
 BASES = {"core_maths": None, "ext_maths": None, "osc_maths": None, "base_e_maths": None}
